@@ -9,7 +9,7 @@ Full-strength statement (the property):
 The code deviates in three classes, each with a kernel-checked witness below:
     NilAtCycle (DESIGN §7 #19), HasQuoted (#32), DupNames (new).
 -/
-import KinModel.Lemmas.C18
+import KinModel.Lemmas.C18Gen
 namespace KinModel.Gen3
 
 /-- The executable oracle used by the driver is the specification: `acceptB` decides `Sat`. -/
@@ -40,6 +40,46 @@ theorem encode_sound_partial (Δ : Decls) (Γ : Comps) (t : GoType) (s : Sch) (v
     cases h : heredAll dupIn Δ t with | false => rfl | true => exact absurd h hd
   obtain ⟨c1, c2⟩ := clean2 hq' hd'
   exact sat_of_relaxed Γ s _ (sound_val Δ Γ hΓ c2 v t s hv c1 hrel) hn
+
+/-- **The generator establishes the relation (all types, all fuel).** Whatever `GenerateSchemaRef` returns for a
+type describes its pointer-stripped type, and every schema it recorded under a declared struct's name — the
+candidates for the component map — describes that struct. Proved through the type table (`g.Types`, keyed by
+the type including pointer-ness), the parent chain and cycle cutting, field discovery and name-ordered property
+insertion. `σ.anon = false`: no cycle was cut at a type whose spine does not end in a declared struct (ghost
+flag; the driver reports it, the harness never produces it). -/
+theorem gen_rel (Δ : Decls) (all : Bool) (fuel : Nat) (t : GoType) (s : Sch) (σ : St)
+    (hg : genRoot Δ all fuel t = (.ok s, σ)) (ha : σ.anon = false) :
+    RelS Δ (okσ σ) (stripPtr t) s ∧
+    ∀ n s', s' ∈ candidatesFor σ n → RelS Δ (okσ σ) (.named n) s' := by
+  have hi : Inv Δ {} := ⟨fun _ _ h => (by cases h), fun _ _ h => (by cases h)⟩
+  have h := (gen_good Δ all fuel).1 [] t {} hi
+  unfold genRoot at hg
+  rw [hg] at h
+  obtain ⟨h1, _, h3⟩ := h ha
+  exact ⟨h3 s rfl, fun n s' hm => h1 n s' (mem_candidatesFor hm)⟩
+
+/-- **C18 main theorem (partial).** For every declaration list, every Go type of the supported kinds, both option
+settings, every value of the type that does not encode as `null`, and every component map the export loop can
+produce in which the registered names are present: the JSON produced by encoding/json satisfies the generated
+schema — unless the type uses the `,string` option (#32), two discovered fields of one struct share a JSON
+name (new finding), or a `null` meets a position produced by cycle cutting (#19).
+Not proved here (checked on every case by the differential run): that enough fuel exists (`gen_finite`) and
+that the export loop fills every registered name (`Complete`, i.e. `gen_refs_resolve`). -/
+theorem gen_sound_partial (Δ : Decls) (all : Bool) (fuel : Nat) (t : GoType) (s : Sch) (σ : St) (Γ : Comps) (v : GoVal)
+    (hg : genRoot Δ all fuel t = (.ok s, σ)) (ha : σ.anon = false)
+    (hch : IsChoice σ Γ) (hco : Complete σ Γ)
+    (hv : HasType Δ v t) (hnn : encode Δ t v ≠ .null)
+    (hq : ¬ HasQuoted Δ t) (hd : ¬ DupNames Δ t) (hn : ¬ NilAtCycle Γ s (encode Δ t v)) :
+    Sat Γ s (encode Δ t v) := by
+  obtain ⟨hr, hc⟩ := gen_rel Δ all fuel t s σ hg ha
+  have hmono := okΓ_of_complete hco
+  obtain ⟨v', hv', he⟩ := strip_value Δ v t hv hnn
+  have hΓ : CompsOK Δ Γ := by
+    intro n s' hl
+    exact relS_mono hmono s' _ (hc n s' (hch n s' hl).2)
+  rw [← he] at hn ⊢
+  exact encode_sound_partial Δ Γ (stripPtr t) s v' hΓ (relS_mono hmono s _ hr) hv'
+    (by unfold HasQuoted at hq ⊢; rwa [heredAll_strip]) (by unfold DupNames at hd ⊢; rwa [heredAll_strip]) hn
 
 /-- The integer bounds table admits every value of the kind (all ten kinds, extremes included). -/
 theorem int_bounds_admit (k : IntKind) (n : Int) (h : inRange k n = true) :
